@@ -96,6 +96,7 @@ Definition validate_axis (npg : znode) (ax : axis) : res unit :=
 Definition validate_axes (root : znode) (md : smeta) : res unit :=
   match md_axes md with
   | None => Ok tt
+  | Some [] => Ok tt                       (* `if metadata.axes:` -- an empty axes list asks for nothing *)
   | Some axes =>
       let! ng := expect_group root path_NODES in
       let! npg := expect_group ng path_PROPS in
@@ -174,6 +175,7 @@ Definition conformant (root : znode) : Prop :=
     (* every axis names a 1-D node property without missing values *)
     match md_axes md with
     | None => True
-    | Some axes => exists pg, alookup path_PROPS nch = Some pg /\ is_group pg = true /\
+    | Some axes => axes = [] \/
+                   exists pg, alookup path_PROPS nch = Some pg /\ is_group pg = true /\
                    forall ax, In ax axes -> axis_conformant pg ax
     end.
